@@ -72,6 +72,8 @@ def judge(region, toks):
         base = parse_string(render(region, []))
     except CxxParseError as e:
         return f"the program with an empty region does not parse: {e}"
+    if " after" in render(region, []) and "name='after'" not in repr(base):
+        return "the declaration that follows the (empty) region is missing from the result"  # the comparison below is relational: anchor it
     try:
         got = parse_string(render(region, toks))
     except CxxParseError as e:
